@@ -1,6 +1,7 @@
 package render
 
 import (
+	"math"
 	"github.com/deadsy/sdfx/sdf"
 	v2 "github.com/deadsy/sdfx/vec/v2"
 	"github.com/deadsy/sdfx/vec/v2i"
@@ -234,28 +235,44 @@ func vc_C07_renderer_reuse() {
 // H3: the octree covers the padded bounding box: the root cube starts at the
 // padded box's minimum corner and its side is at least the padded long axis,
 // for cell counts incl. exact powers of two (ground evaluation: Log2/Ceil are concrete).
+// The root cube is observed, not hooked: the shape answers 0 to the first query
+// (the root's centre: not empty, so it is subdivided) and 1e12 to all later ones
+// (the eight children's centres: empty, the render ends). The children's
+// centres sit at lo + side/4 and lo + 3 side/4 on every axis, whatever their order.
+type vfRootProbe3 struct {
+	bb sdf.Box3
+	q  []v3.Vec
+}
+
+func (l *vfRootProbe3) BoundingBox() sdf.Box3 { return l.bb }
+func (l *vfRootProbe3) Evaluate(p v3.Vec) float64 {
+	l.q = append(l.q, p)
+	if len(l.q) == 1 {
+		return 0
+	}
+	return 1e12
+}
+
 func vc_C07_octree_covers_box() {
 	cells := []int{1, 2, 3, 4, 5, 7, 8, 9, 15, 16, 17, 31, 32, 33, 63, 64, 65, 100, 127, 128, 129, 200, 255, 256, 257, 300, 511, 512}
 	shapes := []v3.Vec{{X: 1, Y: 1, Z: 1}, {X: 10, Y: 3, Z: 2}, {X: 0.3, Y: 7, Z: 7}, {X: 2, Y: 2, Z: 5}}
 	sz := shapes[vfCase("shape", len(shapes))]
-	var root *cube
-	var rootDc *dcache3
-	vfStub("(*github.com/deadsy/sdfx/render.dcache3).processCube", func(dc *dcache3, c *cube, out sdf.Triangle3Writer) {
-		if root == nil {
-			root, rootDc = c, dc
-		}
-	})
 	for _, n := range cells {
-		root = nil
 		bb := sdf.Box3{Min: v3.Vec{X: -1, Y: 2, Z: 0.5}, Max: v3.Vec{X: -1 + sz.X, Y: 2 + sz.Y, Z: 0.5 + sz.Z}}
-		f := &vfHashField{bb: bb}
+		f := &vfRootProbe3{bb: bb}
 		(&MarchingCubesOctree{meshCells: n}).Render(f, sdf.NewTriangle3Buffer(nil))
-		vfAssert(root != nil, "the octree renderer processes a root cube")
-		if root == nil {
-			continue
+		if len(f.q) != 9 {
+			vfUnsupported("octree traversal is not root centre + eight child centres")
 		}
-		side := float64(int(1)<<root.n) * rootDc.resolution
-		lo := rootDc.origin.Add(v3.Vec{X: float64(root.v.X), Y: float64(root.v.Y), Z: float64(root.v.Z)}.MulScalar(rootDc.resolution))
+		lo, hi := f.q[1], f.q[1]
+		for _, q := range f.q[1:] {
+			lo, hi = lo.Min(q), hi.Max(q)
+		}
+		side := 2 * (hi.X - lo.X)
+		if !(side > 0 && math.Abs((hi.Y-lo.Y)-(hi.X-lo.X)) <= 1e-9*side && math.Abs((hi.Z-lo.Z)-(hi.X-lo.X)) <= 1e-9*side) {
+			vfUnsupported("octree child centres do not form a cube")
+		}
+		lo = lo.SubScalar(side / 4)
 		// the root cube contains the bounding box with a margin on every side (the surface may touch the box)
 		eps := 1e-9
 		ok := lo.X < bb.Min.X-eps && lo.Y < bb.Min.Y-eps && lo.Z < bb.Min.Z-eps &&
@@ -267,32 +284,40 @@ func vc_C07_octree_covers_box() {
 
 // The same for the 2-D quadtree renderer: its root square strictly contains the
 // bounding box of the shape, for cell counts around every power of two.
-type vfConst2 struct{ bb sdf.Box2 }
+type vfRootProbe2 struct {
+	bb sdf.Box2
+	q  []v2.Vec
+}
 
-func (l *vfConst2) BoundingBox() sdf.Box2       { return l.bb }
-func (l *vfConst2) Evaluate(p v2.Vec) float64 { return 1 }
+func (l *vfRootProbe2) BoundingBox() sdf.Box2 { return l.bb }
+func (l *vfRootProbe2) Evaluate(p v2.Vec) float64 {
+	l.q = append(l.q, p)
+	if len(l.q) == 1 {
+		return 0
+	}
+	return 1e12
+}
 
 func vc_C07_quadtree_covers_box() {
 	cells := []int{1, 2, 3, 4, 5, 7, 8, 9, 15, 16, 17, 31, 32, 33, 63, 64, 65, 100, 127, 128, 129, 200, 255, 256, 257, 300, 510, 511, 512, 513, 1020, 1024}
 	shapes := []v2.Vec{{X: 1, Y: 1}, {X: 10, Y: 3}, {X: 0.3, Y: 7}, {X: 2, Y: 5}}
 	sz := shapes[vfCase("shape", len(shapes))]
-	var root *square
-	var rootDc *dcache2
-	vfStub("(*github.com/deadsy/sdfx/render.dcache2).processSquare", func(dc *dcache2, c *square, out sdf.Line2Writer) {
-		if root == nil {
-			root, rootDc = c, dc
-		}
-	})
 	for _, n := range cells {
-		root = nil
 		bb := sdf.Box2{Min: v2.Vec{X: -1, Y: 2}, Max: v2.Vec{X: -1 + sz.X, Y: 2 + sz.Y}}
-		(&MarchingSquaresQuadtree{meshCells: n}).Render(&vfConst2{bb: bb}, sdf.NewLine2Buffer(nil))
-		vfAssert(root != nil, "the quadtree renderer processes a root square")
-		if root == nil {
-			continue
+		f := &vfRootProbe2{bb: bb}
+		(&MarchingSquaresQuadtree{meshCells: n}).Render(f, sdf.NewLine2Buffer(nil))
+		if len(f.q) != 5 {
+			vfUnsupported("quadtree traversal is not root centre + four child centres")
 		}
-		side := float64(int(1)<<root.n) * rootDc.resolution
-		lo := rootDc.origin.Add(v2.Vec{X: float64(root.v.X), Y: float64(root.v.Y)}.MulScalar(rootDc.resolution))
+		lo, hi := f.q[1], f.q[1]
+		for _, q := range f.q[1:] {
+			lo, hi = lo.Min(q), hi.Max(q)
+		}
+		side := 2 * (hi.X - lo.X)
+		if !(side > 0 && math.Abs((hi.Y-lo.Y)-(hi.X-lo.X)) <= 1e-9*side) {
+			vfUnsupported("quadtree child centres do not form a square")
+		}
+		lo = lo.SubScalar(side / 4)
 		eps := 1e-9
 		ok := lo.X < bb.Min.X-eps && lo.Y < bb.Min.Y-eps && lo.X+side > bb.Max.X+eps && lo.Y+side > bb.Max.Y+eps
 		vfAssert(ok, "the quadtree root square strictly contains the bounding box of the shape (padding on every side)")
